@@ -92,6 +92,16 @@ Theorem filelock_released : forall n progs sched st ev,
 Proof. exact filelock_released_lemma. Qed.
 Print Assumptions filelock_released.
 
+(* the layer that uses the lock file (maildir io.py `with_write`, UidList and
+   Subscriptions): for every combination of body outcome (normal, exception),
+   touched/empty/existed and a failing exit flush (file_write/file_delete
+   raising), releasing the lock is the last thing __aexit__ does and the lock
+   file is gone afterwards *)
+Theorem withwrite_released : forall r,
+  last (ww_exit r) WFlushWrite = WRelease /\ ww_file_after r = Absent.
+Proof. exact withwrite_released_lemma. Qed.
+Print Assumptions withwrite_released.
+
 (* the expiry assumption is necessary: a holder that outlives the expiration
    loses the lock to a newcomer *)
 Theorem filelock_refuted_overstay :
